@@ -90,7 +90,7 @@ def run(tier, seed):
             rep.cov.setdefault('distinct_presence_relations', 0)
             rep.cov['distinct_presence_relations'] += len(total.sets['presence_relations'])
             for k, v in total.classes.items():
-                classes_seen[k.rsplit('/', 1)[0]] = classes_seen.get(k.rsplit('/', 1)[0], 0) + v
+                kk = '/'.join(k.split('/')[:2]); classes_seen[kk] = classes_seen.get(kk, 0) + v
             rep.cov.setdefault('add_classes', {})
             for k, v in total.classes.items():
                 rep.cov['add_classes'][k] = rep.cov['add_classes'].get(k, 0) + v
